@@ -164,6 +164,61 @@ func local() []cat.Program {
 			Files: map[string]string{"page.vuego": `<div v-for="(a, row) in grid"><span v-for="(c, cell) in row" :data-i="i" :data-x="x">{{ a }}{{ c }}={{ cell }}{{ r }}{{ item }}{{ role }}{{ t }}{{ it }}{{ mi }}{{ x }}</span>{{ c }}{{ cell }}</div><p>{{ a }}{{ row }}{{ who }}</p>` + end},
 			Data:  map[string]vals.V{"who": s("xllWHO"), "grid": anys(strs("g1", "g2"), strs("g3"), strs("g4", "g5", "g6"))}},
 
+		// components that carry per-render state in every place evaluation might write to, included
+		// twice with different props and once per loop iteration: if a component's DOM were shared
+		// between uses (cached and evaluated in place), a later use - in this render or the next
+		// one with other data - would show an earlier use's values.
+		{Name: "x-comp-state", Canary: "xcsWHO", Feat: []string{"component-state", "include", "v-html", "v-show", "v-once", "v-for"},
+			Files: map[string]string{
+				"page.vuego": `<section><template include="components/xcs-box.vuego" :body="body1" :label="who" :on="flag" :pad="pad"></template>` +
+					`<template include="components/xcs-box.vuego" :body="body2" label="second {{ who }}" :on="!flag" :pad="pad"></template>` +
+					`<ul><li v-for="r in rows"><template include="components/xcs-box.vuego" :body="r.h" :label="r.name" :on="r.on" :pad="pad"></template></li></ul>` +
+					`<template include="components/xcs-wrap.vuego" :body="body2" :label="who"></template>` +
+					`<template include="components/xcs-req.vuego" :body="body1" :label="pad"></template><template include="components/xcs-req.vuego" :body="body2" :label="who"></template></section>` + end,
+				"components/xcs-box.vuego": `<div class="box" :class="{hot: on, cold: !on}" style="margin:0;top:1px" :style="{paddingTop: pad}" v-show="on" :title="label" :data-b="body">` +
+					`<template v-html="body"></template><span v-html="body" style="a:1;b:2" v-show="on" class="s" :class="label"></span>` +
+					`<p v-text="label" :title="label" style="c:3" v-show="!on"></p><em title="t {{ label }}" :data-on="on">{{ label }} / {{ pad }}</em>` +
+					`<style v-once>.xcs{}</style><b v-if="on" :id="label">on {{ label }}</b><b v-else :id="pad">off {{ label }}</b>` +
+					`<template include="components/xcs-inner.vuego" :v="label" t="t {{ label }}" :flag="on"></template>` +
+					`<template :seen="label" note="n {{ label }}"><i>{{ seen }} {{ note }}</i></template></div>`,
+				"components/xcs-inner.vuego": `<small :title="t" :class="{f: flag}" v-show="flag">{{ v }} {{ t }}</small>`,
+				// a component whose root element is itself an include with props
+				"components/xcs-wrap.vuego": `<template include="components/xcs-inner.vuego" :v="label" t="w {{ label }}" :flag="body"></template>`,
+				// a component whose root is a <template> with :required, attributes and v-html children
+				"components/xcs-req.vuego": `<template :required="body,label" kind="k {{ label }}" :twice="label + label"><h5 :title="kind">{{ twice }}</h5><template v-html="body"></template><u v-text="kind"></u></template>`,
+			},
+			Data: map[string]vals.V{"who": s("xcsWHO"), "body1": s("<b>xcs-one</b>"), "body2": s("<i>xcs-two</i>"), "flag": b(true), "pad": s("3px"),
+				"rows": anys(m(map[string]vals.V{"h": s("<u>r1</u>"), "name": s("row1"), "on": b(true)}), m(map[string]vals.V{"h": s("r2"), "name": s("row2"), "on": b(false)}))}},
+		// the same idea with registered shorthand tags inside the component (needs WithComponents)
+		{Name: "x-comp-state-sh", Opts: []string{"components"}, Canary: "xchWHO", Feat: []string{"component-state", "shorthand", "include"},
+			Files: map[string]string{
+				"page.vuego": `<div><xch-card :label="who" :body="body" :on="flag"></xch-card><xch-card label="two {{ who }}" :body="who" :on="!flag"></xch-card>` +
+					`<p v-for="r in rows"><xch-card :label="r" :body="body" :on="flag"></xch-card></p></div>` + end,
+				"components/XchCard.vuego": `<article :title="label" :class="{on: on}" style="x:1" v-show="on"><xch-leaf :v="label" t="t {{ label }}"></xch-leaf><template v-html="body"></template><span v-text="label"></span></article>`,
+				"components/XchLeaf.vuego": `<small :title="t">{{ v }}</small>`,
+			},
+			Data: map[string]vals.V{"who": s("xchWHO"), "body": s("<b>xch</b>"), "flag": b(true), "rows": strs("c1", "c2")}},
+
+		// page front-matter read and REWRITTEN by root-level <template> assignments (also propagated
+		// out of a top-level v-for); through *Vue.Render the front-matter comes from the engine's
+		// cache. Rendered with data, with an empty map and with nil.
+		{Name: "x-fm-rootvars", FileOnly: true, Canary: "xfrWHO", Feat: []string{"front-matter", "template-vars", "fm-rootvars"},
+			Files: map[string]string{
+				"page.vuego": "---\nheading: Welcome\nn: 0\nitems:\n  - a\n  - b\nbox:\n  k: v0\n---\n" +
+					`<h1>{{ heading }} / {{ n }} / {{ who }} / {{ box.k }}</h1>` +
+					`<template heading="Details" :n="n + 1" :who="heading"><h2>{{ heading }} / {{ n }} / {{ who }}</h2></template>` +
+					`<template v-for="it in items" :n="n + 1">{{ it }}:{{ n }} </template><p>{{ heading }} / {{ n }} / {{ who }}</p>` +
+					`<template :items="n" box="flat"><p>{{ items }} {{ box }}</p></template>` + end,
+			},
+			Data: map[string]vals.V{"who": s("xfrWHO"), "n": n(40), "extra": s("e")}},
+		// the same without front-matter: root-level assignments over config data (theme.yml / data/*.yml)
+		{Name: "x-cfg-rootvars", Canary: "xcrWHO", Feat: []string{"config-data", "template-vars"},
+			Files: map[string]string{
+				"page.vuego":   `<h1>{{ heading }} / {{ n }} / {{ who }}</h1><template heading="Details" :n="n + 1"><h2>{{ heading }} / {{ n }}</h2></template><p>{{ heading }} / {{ n }}</p>` + end,
+				"data/xcr.yml": "heading: Welcome\nn: 0\n",
+			},
+			Data: map[string]vals.V{"who": s("xcrWHO")}},
+
 		// near-twin programs: the same template text except for the number of blanks INSIDE string
 		// literals of expressions ({{ }}, v-if, v-show, :attr, :class / :style objects). On one engine
 		// (shared histories) they meet in both orders; anything that identifies expressions more
@@ -308,7 +363,15 @@ func applicable(p cat.Program, entry string) bool {
 // that state that survives a render (evaluated attributes written back into a cached DOM, a
 // stale scope, a cached result) becomes visible.
 
-const nVariants = 3
+// Variants 0..2 transform the described values; variant 3 is an EMPTY map and variant 4 is NO
+// data at all (nil is passed to Fill / Render / RenderFragment / RenderNodes): the paths on
+// which an engine might hand one of its own maps (cached front-matter, config data) to the
+// render as root scope.
+const (
+	nVariants = 5
+	vEmpty    = 3
+	vNil      = 4
+)
 
 func variant(v vals.V, k int) vals.V {
 	if k == 0 {
@@ -359,6 +422,12 @@ func variant(v vals.V, k int) vals.V {
 
 // goData builds the typed data map of program p in variant k (a fresh value every call).
 func goData(p cat.Program, k int) map[string]any {
+	switch k {
+	case vEmpty:
+		return map[string]any{}
+	case vNil:
+		return nil
+	}
 	out := map[string]any{}
 	for key, v := range p.Data {
 		out[key] = variant(v, k).Go()
